@@ -16,7 +16,7 @@ VERIF = Path(__file__).resolve().parent.parent
 NOT_APPLICABLE = {
     "C05": "sum rules of evolved PDFs depend on Mellin-quadrature and interpolation accuracy; no source-visible clause beyond those decided under C11/C25/C34",
     "C06": "numerical agreement of split evolution paths and its decrease under grid refinement are runtime quantities; exact kernel composition is C10, part ordering is C02",
-    "C50": "a scaling law in a_s of end-to-end numerical results; wiring clauses are decided under C16/C19",
+    "C50": "a scaling law in a_s of end-to-end numerical results (x-space distributions under a rescaled coupling); the N-space ingredients it follows from are decided elsewhere: kernels solve their equation (C07/C08), the coupling's decoupling logarithms (C16), the renormalisation-group logarithms of the matching elements through third order in the non-singlet sector and at first order in the singlet (C29), matching wiring (C02/C19)",
 }
 
 # Properties whose check is not built (yet); reason is cost, stated honestly.
